@@ -138,7 +138,7 @@ def corr(ctx):
         sp, sc = rng.normal(size=(F, K, T)) * scale, rng.normal(size=(F, K, T)) * scale
         w = rng.random((F, K, T)) + 0.05
         w /= w.sum(1, keepdims=True)
-        want = mmu.log_pdf_to_affiliation_for_integration_models_with_inline_pa(w, sp.copy(), sc.copy())
+        want = mmu.log_pdf_to_affiliation_for_integration_models_with_inline_pa(w, sp.copy(order='K'), sc.copy(order='K'))
         for f in range(F):
             lines.append(f'inlinepa {K} {T} {fbits(w[f])} {fbits(sp[f])} {fbits(sc[f])}')
             wants.append((want[f], sp[f], sc[f]))
@@ -185,7 +185,7 @@ def _aligner(kind, metric, algorithm, cfg):
 @oracle
 def aligner_only_reorders(kind, metric, algorithm, cfg, mask, ref):
     al = _aligner(kind, metric, algorithm, cfg)
-    mask0 = mask.copy()
+    mask0 = mask.copy(order='K')
     args = (mask,) if kind != 'oracle' else (mask, ref)
     mapping = al.calculate_mapping(*args)
     K, F, T = mask.shape
@@ -196,7 +196,7 @@ def aligner_only_reorders(kind, metric, algorithm, cfg, mask, ref):
         return Fail('mapping-not-permutation', f'{kind}/{metric}/{algorithm}: bins {bad[:5]} are not permutations: '
                     f'{mapping[:, bad[0]].tolist()}')
     aligned = al.apply_mapping(mask0, mapping)
-    called = al(mask0.copy(), *args[1:])
+    called = al(mask0.copy(order='K'), *args[1:])
     for f in range(F):
         for k in range(K):
             if not np.array_equal(aligned[k, f], mask0[mapping[k, f], f]):
@@ -213,7 +213,7 @@ def aligner_only_reorders(kind, metric, algorithm, cfg, mask, ref):
 def inline_alignment_permutes_both(affiliation, quadratic_form, kind, metric, cfg):
     al = _aligner(kind, metric, 'greedy', cfg)
     a2, q2 = mmu.apply_inline_permutation_alignment(
-        affiliation.copy(), quadratic_form=quadratic_form.copy(), weight_constant_axis=(-3,), aligner=al)
+        affiliation.copy(order='K'), quadratic_form=quadratic_form.copy(order='K'), weight_constant_axis=(-3,), aligner=al)
     F, K, T = affiliation.shape
     for f in range(F):
         found = None
@@ -228,7 +228,7 @@ def inline_alignment_permutes_both(affiliation, quadratic_form, kind, metric, cf
         if found == 'aff-only':
             return Fail('quadratic-form-other-mapping', f'bin {f}: quadratic form not permuted by the affiliation mapping')
     a3 = mmu.apply_inline_permutation_alignment(
-        affiliation.copy(), quadratic_form=None, weight_constant_axis=(-3,), aligner=al)
+        affiliation.copy(order='K'), quadratic_form=None, weight_constant_axis=(-3,), aligner=al)
     if not np.array_equal(a3, a2):
         return Fail('with-without-quadratic-form', 'alignment result depends on whether a quadratic form is passed')
 
@@ -242,7 +242,7 @@ def _aux(lp):
 
 @oracle
 def integration_inline_pa_not_worse(weight, spatial, spectral):
-    got = mmu.log_pdf_to_affiliation_for_integration_models_with_inline_pa(weight, spatial.copy(), spectral.copy())
+    got = mmu.log_pdf_to_affiliation_for_integration_models_with_inline_pa(weight, spatial.copy(order='K'), spectral.copy(order='K'))
     F, K, T = spatial.shape
     for f in range(F):
         aux_id, _ = _aux(spatial[f] + spectral[f])
@@ -294,6 +294,15 @@ def search(ctx):
         if rng.random() < 0.3:
             s = np.round(s)
         ctx.run(assignment_is_permutation, score=s, algorithm=algo if K <= 5 else 'greedy')
+        # finite matrices of large magnitude / other float widths ("every finite score matrix"): scores of un-normalised
+        # masks (multiply metric) reach 1e8 and more; a stand-in for -inf derived from the data (min - 1) collides there
+        scale = float(rng.choice([2.0 ** 60, 1e16, 1e300, 1e-300, 3e4]))
+        dt = np.float32 if (rng.random() < 0.3 and 1e-30 < scale < 1e30) else np.float64
+        big = (np.round(rng.normal(size=(K, K)) * 4) * scale).astype(dt)
+        ctx.count(f'search-score-magnitude:{scale:.0e}:{np.dtype(dt).name}')
+        ctx.run(assignment_is_permutation, score=big, algorithm='greedy')
+        if K <= 5 and scale < 1e299:        # 'optimal' sums K entries: keep the totals finite
+            ctx.run(assignment_is_permutation, score=big, algorithm='optimal')
     # integer dtype path: ordinary integer matrices must behave like floats; entries equal to iinfo.min collide with
     # the code's own "-inf" stand-in (DESIGN.md section 5, candidate 11)
     for _ in range(ctx.n(60, 600)):
